@@ -293,7 +293,9 @@ func runAppScenario(sc *AScenario) []map[string]any {
 				return false
 			}
 		}
-		for t := 0; t < 200 && !allBegun() && !returned(); t++ {
+		// every closer is held on its gate: a Close that does not invoke ALL of them while the others are slow never gets
+		// past this wait (3 s, only spent when some closer is not reached); the first gate is opened after it
+		for t := 0; t < 3000 && !allBegun() && !returned(); t++ {
 			time.Sleep(time.Millisecond)
 		}
 		// hold every closer a little longer: a Close that does not wait shows as closeReturn before closeEnd
